@@ -90,6 +90,12 @@ def make_workload(rng, n_threads, max_tests, runlevel=True):
                 test["tags_in"] = [["g%d" % t], ["l0"]]  # the test sets a tag the run level may have
             if rng.random() < 0.25:
                 test["tags_after"] = [["z%d" % uid], []]
+            if rng.random() < 0.3:
+                test["skip_reason"] = ""           # an explicitly empty reason
+            if j and runlevel and rng.random() < 0.15:
+                ops.append(["startTestRun"])       # a new run on the same forwarder ...
+                if rng.random() < 0.6:
+                    test["no_times"] = True        # ... whose tests are timed by the clock
             ops.append(["test", test])
             if runlevel and rng.random() < 0.2:
                 ops.append([rng.choice(["shouldStop", "stop", "done"])])
@@ -139,7 +145,7 @@ def worker(fwd, ops, errors):
             elif k == "test":
                 spec = op[1]
                 test = testtools.PlaceHolder(spec["id"])
-                if spec["t0"] is not None:
+                if spec["t0"] is not None and not spec.get("no_times"):
                     fwd.time(BASE + datetime.timedelta(seconds=spec["t0"]))
                 fwd.startTest(test)
                 if "tags_in" in spec:
@@ -147,11 +153,12 @@ def worker(fwd, ops, errors):
                     fwd.tags(new, gone)
                     new.add("scribble")
                     gone.clear()
-                fwd.time(BASE + datetime.timedelta(seconds=spec["t1"]))
+                if not spec.get("no_times"):
+                    fwd.time(BASE + datetime.timedelta(seconds=spec["t1"]))
                 name = spec["outcome"]
                 try:
                     if name == "addSkip":
-                        fwd.addSkip(test, "why")
+                        fwd.addSkip(test, spec.get("skip_reason", "why"))
                     elif name in ("addSuccess", "addUnexpectedSuccess"):
                         getattr(fwd, name)(test)
                     else:
@@ -180,6 +187,30 @@ def model_tags(ops):
                 cur -= set(op[1]["tags_in"][1])
             out[op[1]["id"]] = frozenset(cur)
     return out
+
+
+def model_times(ops):
+    """test id -> (start, end) in seconds after BASE, None meaning the system clock.  The forwarder's clock: an
+    explicit time stays until the next one; startTestRun goes back to the system clock."""
+    clock, out = None, {}
+    for op in ops:
+        if op[0] == "startTestRun":
+            clock = None
+        elif op[0] == "test":
+            sp = op[1]
+            if not sp.get("no_times"):
+                t_start = sp["t0"] if sp["t0"] is not None else clock
+                clock = sp["t1"]
+                out[sp["id"]] = (t_start, sp["t1"])
+            else:
+                out[sp["id"]] = (clock, clock)
+    return out
+
+
+def time_is(got, w):
+    if w is None:       # the system clock: nothing that was ever supplied
+        return got is not None and abs((got - BASE).total_seconds()) > 10 ** 6
+    return got == BASE + datetime.timedelta(seconds=w)
 
 
 def execute(workload, chooser, fault=None, line_yield=False):
@@ -340,10 +371,11 @@ def check_log(ctx, workload, sch, log, sem, errors, exc, threads, fault, detail)
     if faulted_thread is not None and sch.fault_at is not None:
         t = int(faulted_thread[1:])
         specs = [op[1] for op in workload[t] if op[0] == "test"]
-        prev_end = None
+        faulted_times = model_times(workload[t])
         for s in specs:
-            t_start = s["t0"] if s["t0"] is not None else prev_end
-            prev_end = s["t1"]
+            t_start = faulted_times[s["id"]][0]
+            if s.get("no_times") or s["t0"] is None:
+                continue        # its start depends on calls the fault may have cut short
             for b in blocks:
                 if b["task"] != faulted_thread or b["test"] != s["id"] or b.get("cut") or b["start"] <= sch.fault_at:
                     continue
@@ -367,14 +399,14 @@ def check_log(ctx, workload, sch, log, sem, errors, exc, threads, fault, detail)
                   lambda: {"thread": t, "got": [(b["test"], o) for b, o in zip(mine, outs)],
                            "want": [(s["id"], s["outcome"]) for s in want], **detail()})
         tags = model_tags(ops)
-        prev_end = None
+        expect_times = model_times(ops)
         for b, s in zip(mine, want):
             times = [x.payload["time"] for x in b["events"] if x.name == "time"]
-            t_start = s["t0"] if s["t0"] is not None else prev_end
-            prev_end = s["t1"]
-            ctx.check(times[:2] == [BASE + datetime.timedelta(seconds=t_start),
-                                    BASE + datetime.timedelta(seconds=s["t1"])],
-                      "block.own-start-time", lambda: {"test": s["id"], "times": [repr(x) for x in times], **detail()})
+            want_times = expect_times[s["id"]]
+            ctx.check(len(times) >= 2 and time_is(times[0], want_times[0]) and time_is(times[1], want_times[1]),
+                      "block.own-start-time", lambda: {"test": s["id"], "times": [repr(x) for x in times],
+                                                       "want (seconds after BASE, None = system clock)": want_times,
+                                                       **detail()})
             out = [x for x in b["events"] if x.name in recorders.OUTCOMES]
             if out:
                 ctx.check(out[0].payload["tags"] == tags[s["id"]], "block.tags-of-that-test",
